@@ -29,7 +29,7 @@ m = {
   "guard": "cargo feature verif-hooks",
   "enable": "the harness depends on /repo with features = [\"verif-hooks\"] (harness/Cargo.toml); every check rebuilds it with cargo build --offline",
   "baseline_off_cmd": "cd /repo && cargo test --workspace --no-fail-fast --offline",
-  "source_commits": ["e2a0459", "ed73b4d"],
+  "source_commits": ["e2a0459", "ed73b4d", "0410f2f"],
   "add_only": True
  },
  "engines": [
